@@ -44,6 +44,9 @@ const DIVIDER_PREFIX: &str = "~~~~~~~~EXECDIVIDER::";
 // TODO: make this a static thingy thing
 const DIVIDER_PREFIX_BYTES: &[u8] = b"~~~~~~~~EXECDIVIDER::";
 
+/// Shell variable that takes the exit code of an expression to its divider
+const DIVIDER_EXIT_CODE_VARIABLE: &str = "__SCRUT_EXIT_CODE";
+
 /// An executor that runs all shell expressions of the provided executions
 /// within a single bash script (within the same bash process).
 ///
@@ -304,13 +307,18 @@ fn compile_script(testcases: &[&TestCase], config: &TestCaseConfig, salt: &str) 
         // add actual expression
         expressions.push(testcase.shell_expression.to_string());
 
-        // add footer that divides from next execution and captures exit code
+        // add footer that divides from next execution and captures exit code;
+        // the exit code is taken by a command of its own: an expression that
+        // ends in `|` makes that command (and not the divider) the rest of its
+        // pipeline, which leaves the divider without an exit code
         let footer = generate_divider(salt, index);
         expressions.push("".to_string());
+        expressions.push(format!("{DIVIDER_EXIT_CODE_VARIABLE}=$?"));
         expressions.push(format!(r#"echo "{}""#, &footer));
         if config.output_stream != Some(OutputStreamControl::Combined) {
             expressions.push(format!(r#"1>&2 echo "{}""#, &footer));
         }
+        expressions.push(format!("unset {DIVIDER_EXIT_CODE_VARIABLE}"));
     }
 
     Ok(expressions.join("\n"))
@@ -363,7 +371,10 @@ where
 
 /// Create a new divider that separated outputs of multiple executions
 fn generate_divider(salt: &str, index: usize) -> String {
-    format!("{}{}::{}::$?", DIVIDER_PREFIX, salt, index)
+    format!(
+        "{}{}::{}::${}",
+        DIVIDER_PREFIX, salt, index, DIVIDER_EXIT_CODE_VARIABLE
+    )
 }
 
 #[derive(Debug, PartialEq)]
